@@ -3,7 +3,7 @@ C09 extension (Gcd family): the value-level models of Model/NtGcd.lean (which mi
 relic_bn_lcm.c, relic_bn_inv.c and are executed by the driver against the library on every presented line, cofactors included)
 return the mathematically defined values for ALL integers.
 -/
-import RelicVerif.Lemmas.NtGcdC
+import RelicVerif.Lemmas.NtGcdD
 import RelicVerif.Lemmas.NtLehmer
 
 namespace Relic.Props.C09
@@ -32,14 +32,19 @@ theorem gcd_ext_dig_exact (a : Int) (b : Nat) :
     (gcdExtDig a b).1 = (Int.gcd a b : Int) ∧
     a * (gcdExtDig a b).2.1 + (b : Int) * (gcdExtDig a b).2.2 = (gcdExtDig a b).1 := gcdExtDig_spec a b
 
-/-
-Full statement for bn_gcd_ext_binar:  ∀ a b, ∃ c d e, gcdExtBinar a b = some (c, d, e) ∧ c = gcd(a, b) ∧ a·d + b·e = c.
-Proved below without the existence part: the strip loop and the main loop are total with the supplied fuel and keep
-u = A·x + B·y, v = C·x + D·y (HAC 14.61 parity argument), but termination of the final cofactor-reduction loop
-("Now fix reciprocals", added in /repo by the fix 6f5c4fa) within the model's fuel is NOT proved — it is observed on every
-presented line (a fuel-exhausted model prints `model-fuel-exhausted`, which no library output equals).
--/
-/-- bn_gcd_ext_binar: whenever the model returns, c = gcd(a, b) ≥ 0 and a·d + b·e = c, for all integers -/
+/-- bn_gcd_ext_binar at full strength: for ALL integers a, b the model returns (every loop ends within the supplied fuel: strip
+loop, main loop, and the final cofactor-reduction loop "Now fix reciprocals", whose fuel |C| + 2 is proved sufficient: a round
+with |C| > ⌊y'/2⌋ strictly decreases |C|, a round with |C| ≤ ⌊y'/2⌋ < … is possible only for y' = 2, C = −1 and is the last one),
+c = gcd(a, b) ≥ 0 and a·d + b·e = c -/
+theorem gcd_ext_binar_exact (a b : Int) :
+    ∃ c d e, gcdExtBinar a b = some (c, d, e) ∧ c = (Int.gcd a b : Int) ∧ a * d + b * e = c := gcdExtBinar_full a b
+
+/-- the cofactor-reduction loop of bn_gcd_ext_binar terminates: fuel |C| + 2 suffices whenever C·x + D·y = 1, x, y > 0 -/
+theorem gcd_ext_binar_fix_loop_total (x y : Int) (hx : 0 < x) (hy : 0 < y) (C D : Int) (hbez : C * x + D * y = 1) :
+    ∃ r, extBinarFix x y (hlv x) (hlv y) (C.natAbs + 2) C D = some r :=
+  extBinarFix_total x y hx hy (C.natAbs + 2) C D hbez (le_refl _)
+
+/-- (kept; subsumed by gcd_ext_binar_exact) whenever the model returns, c = gcd(a, b) ≥ 0 and a·d + b·e = c -/
 theorem gcd_ext_binar_exact_partial (a b c d e : Int) (h : gcdExtBinar a b = some (c, d, e)) :
     c = (Int.gcd a b : Int) ∧ a * d + b * e = c := gcdExtBinar_spec a b c d e h
 
